@@ -7,7 +7,7 @@ dst = f"/verif/seeded/{prop}-{i}"
 os.makedirs(dst, exist_ok=True)
 shutil.copy(f"{src}/patch{i}.diff", f"{dst}/patch.diff")
 shutil.copy(f"{src}/demo{i}.py", f"{dst}/demo.py")
-notes = open(f"{src}/notes{i}.md").read()
+notes = open(f"{src}/NOTES{i}.md" if os.path.exists(f"{src}/NOTES{i}.md") else f"{src}/notes{i}.md").read()
 open(f"{dst}/notes.md", "w").write(notes)
 m = re.search(r"demo_clean_rc=(\d+) demo_patched_rc=(\d+) tests='([^']*)'", verify_line)
 meta = {
